@@ -1,4 +1,4 @@
-import WK.Proofs.C23_Loop
+import WK.Proofs.C23_Feed
 /-
   C23 — Client stream decoding is robust to arbitrary bytes and splits.
 
@@ -97,5 +97,114 @@ theorem c23_stream_partial (sv : Nat) (fs : List Frame) (f : Frame) (p q : Bytes
 
 /-- non-vacuity: a RECVACK cut after 5 of its 18 bytes behind a complete PING -/
 example : adapterDecode 6 ([0x70] ++ [0x68, 16, 0, 0, 0]) = .ok [.ping {}] 1 := by decide
+
+
+/-! ## arbitrary chunk splits (the gateway's inbound buffer) -/
+
+/-- a partial head that already contains its whole remaining stream is empty -/
+theorem partialHead_full (v : Nat) (q : Bytes) (h : List Frame) (hw : ∀ f ∈ h, WithinLimits v f)
+    (hp : PartialHead v q h) (hq : q = encAll v h) : h = [] ∧ q = [] := by
+  cases h with
+  | nil => exact ⟨rfl, by simpa using hq⟩
+  | cons f0 h' =>
+    exfalso
+    have hpos := encOf_pos v f0 (hw f0 (by simp))
+    have hl := congrArg List.length hq
+    simp only [encAll_cons, List.length_append] at hl
+    rcases hp with rfl | ⟨f, fs3, q', e, he, hq'⟩
+    · simp only [List.length_nil] at hl; omega
+    · simp only [List.cons.injEq] at e
+      obtain ⟨rfl, _⟩ := e
+      have h2 := congrArg List.length he
+      have h3 : 0 < q'.length := List.length_pos_iff.mpr hq'
+      simp only [List.length_append] at h2
+      omega
+
+/-- **Split invariance.**  Deliver the concatenated encodings of any list of in-limit
+    frames to the gateway in ANY chunking (any number of chunks, any sizes, empty
+    chunks included): exactly the original frames are dispatched, in order, nothing
+    is left in the buffer and the session is not closed. -/
+theorem c23_split_invariant (sv : Nat) (fs : List Frame) (chunks : List Bytes)
+    (h : ∀ f ∈ fs, WithinLimits (effVersion sv) f)
+    (hcat : chunks.flatten = encAll (effVersion sv) fs) :
+    feed sv chunks = { buf := [], out := fs.map (norm (effVersion sv)), closed := false, panicked := false } := by
+  obtain ⟨g, hh, q, e1, e2, e3, e4⟩ :=
+    feed_from sv chunks {} fs [] rfl (Or.inl rfl) h (by simp [hcat])
+  have hwh : ∀ f ∈ hh, WithinLimits (effVersion sv) f := fun f hf => h f (by simp [e1, hf])
+  obtain ⟨rfl, rfl⟩ := partialHead_full _ q hh hwh e4 (by simpa using e3)
+  simp only [List.append_nil] at e1
+  subst e1
+  simpa [feed] using e2
+
+/-- **Split invariance with an incomplete last frame.**  If the delivered bytes end
+    in a strict prefix `p` of one more frame, every chunking dispatches exactly the
+    complete frames and keeps exactly `p` buffered: no progress on the partial
+    frame, no error, no matter where the chunk boundaries fall. -/
+theorem c23_split_partial (sv : Nat) (fs : List Frame) (f : Frame) (p p' : Bytes) (chunks : List Bytes)
+    (h : ∀ g ∈ fs, WithinLimits (effVersion sv) g) (hw : WithinLimits (effVersion sv) f)
+    (hpp : encOf (effVersion sv) f = p ++ p') (hp' : p' ≠ [])
+    (hcat : chunks.flatten = encAll (effVersion sv) fs ++ p) :
+    feed sv chunks = { buf := p, out := fs.map (norm (effVersion sv)), closed := false, panicked := false } := by
+  have hall : ∀ g ∈ fs ++ [f], WithinLimits (effVersion sv) g := by
+    intro g hg
+    simp only [List.mem_append, List.mem_singleton] at hg
+    rcases hg with hg | rfl
+    · exact h g hg
+    · exact hw
+  obtain ⟨g, hh, q, e1, e2, e3, e4⟩ :=
+    feed_from sv chunks {} (fs ++ [f]) p' rfl (Or.inl rfl) hall
+      (by simp [hcat, encAll_append, hpp, List.append_assoc])
+  -- the remaining frames `hh` are not empty (p' is still missing) …
+  have hne : hh ≠ [] := by
+    rintro rfl
+    simp only [encAll_nil, List.append_eq_nil_iff] at e3
+    exact hp' e3.2
+  -- … so `g` is a prefix of `fs`
+  obtain ⟨d, rfl, rfl⟩ : ∃ d, fs = g ++ d ∧ hh = d ++ [f] := by
+    rw [List.append_eq_append_iff] at e1
+    rcases e1 with ⟨a', h1, h2⟩ | ⟨c', h1, h2⟩
+    · have hl := congrArg List.length h2
+      have : 0 < hh.length := List.length_pos_iff.mpr hne
+      simp only [List.length_append, List.length_cons, List.length_nil] at hl
+      have ha : a' = [] := List.eq_nil_of_length_eq_zero (by omega)
+      subst ha
+      exact ⟨[], by simpa using h1.symm, by simpa using h2.symm⟩
+    · exact ⟨c', h1, h2⟩
+  have hq : q = encAll (effVersion sv) d ++ p := by
+    rw [encAll_append, encAll_cons, encAll_nil, List.append_nil, hpp, ← List.append_assoc] at e3
+    exact List.append_cancel_right e3
+  -- the buffered tail is a partial head, so no complete frame can be left in it
+  have hd : d = [] := by
+    cases d with
+    | nil => rfl
+    | cons f0 d' =>
+      exfalso
+      have hpos := encOf_pos _ f0 (h f0 (by simp))
+      have hl := congrArg List.length hq
+      simp only [encAll_cons, List.length_append] at hl
+      rcases e4 with rfl | ⟨f1, fs3, q', e, he, hq'⟩
+      · simp only [List.length_nil] at hl; omega
+      · simp only [List.cons_append, List.cons.injEq] at e
+        obtain ⟨rfl, _⟩ := e
+        have h2 := congrArg List.length he
+        have h3 : 0 < q'.length := List.length_pos_iff.mpr hq'
+        simp only [List.length_append] at h2
+        omega
+  subst hd
+  simp only [encAll_nil, List.nil_append] at hq
+  subst hq
+  simpa [feed] using e2
+
+/-- Corollary in the property's own words: any two chunkings of the same valid stream
+    leave the gateway in the same state. -/
+theorem c23_chunking_irrelevant (sv : Nat) (fs : List Frame) (c1 c2 : List Bytes)
+    (h : ∀ f ∈ fs, WithinLimits (effVersion sv) f)
+    (h1 : c1.flatten = encAll (effVersion sv) fs) (h2 : c2.flatten = encAll (effVersion sv) fs) :
+    feed sv c1 = feed sv c2 := by
+  rw [c23_split_invariant sv fs c1 h h1, c23_split_invariant sv fs c2 h h2]
+
+/-- non-vacuity: PING + RECVACK(v6) delivered as 3 chunks cutting the header, the varint and the body -/
+example : (feed 6 [[0x70, 0x68], [16, 0, 0, 0], [0, 0, 0, 0, 9, 0, 0, 0, 0, 0, 0, 0, 7]]).out =
+    [.ping {}, .recvack { dup := true } { messageID := 9, messageSeq := 7 }] := by decide
 
 end WK.C23
